@@ -9,3 +9,5 @@ import ReuseVerif.Model.Dep5
 import ReuseVerif.Spec.Dep5
 import ReuseVerif.Model.Precedence
 import ReuseVerif.Spec.Precedence
+import ReuseVerif.Model.Covered
+import ReuseVerif.Spec.Covered
